@@ -183,7 +183,7 @@ theorem C16_fixed_samples :
 theorem C16_sorted_copies (a o l c : Nat) (st st' : St) (v : Val)
     (hr : (callBuiltin F "sorted" [(none, .list false a o l c)]).run st = .ok (v, st')) :
     ∃ ys, st' = { st with arrays := st.arrays ++ [ys] } ∧ v = .list false st.arrays.length 0 ys.length ys.length :=
-  sorted_copies F (by decide) a o l c st st' v hr
+  sorted_copies F (by decide) false (Or.inl rfl) a o l c st st' v hr
 
 /-- **`reversed` copies**: the new array holds the visible elements of the argument in reverse order. -/
 theorem C16_reversed_copies (a o l c : Nat) (st st' : St) (v : Val)
@@ -191,7 +191,7 @@ theorem C16_reversed_copies (a o l c : Nat) (st st' : St) (v : Val)
     ∃ xs, st.arrays[a]? = some xs ∧
       st' = { st with arrays := st.arrays ++ [((xs.drop o).take l).reverse] } ∧
       v = .list false st.arrays.length 0 ((xs.drop o).take l).reverse.length ((xs.drop o).take l).reverse.length :=
-  reversed_copies F (by decide) a o l c st st' v hr
+  reversed_copies F (by decide) false (Or.inl rfl) a o l c st st' v hr
 
 -- the hypothesis of both is met: `sorted([3, 1, 2])` succeeds in a heap holding that list
 example : ((callBuiltin F "sorted" [(none, .list false 1 0 3 3)]).run
